@@ -280,7 +280,10 @@ impl DcpsDomainParticipant {
         let status_condition = DcpsStatusCondition::default();
         let qos = match qos {
             QosKind::Default => self.domain_participant.default_topic_qos.clone(),
-            QosKind::Specific(q) => q,
+            QosKind::Specific(q) => {
+                q.is_consistent()?;
+                q
+            }
         };
 
         // Entity ids are reused after deletion: take the next id no live topic holds
